@@ -992,7 +992,10 @@ type c20Exp struct {
 }
 
 type c20NodeView struct {
-	exp       map[string]c20Exp
+	// list sections: the first matching entry mentions the list explicitly as [] or null. Whether that "sets" the
+	// list (to empty) or not is not decided by the statement; both readings are tolerated.
+	explicitEmpty bool
+	exp           map[string]c20Exp
 	matching  []int // indexes of entries whose (valid) selector matches, in list order
 	invalid   []int
 	entryLeaf []c20Leaves
@@ -1029,7 +1032,12 @@ func (s *c20Section) expect(cfg *c20SecCfg, labels map[string]string) *c20NodeVi
 		}
 	}
 	if len(v.matching) > 0 { // the FIRST matching entry, and only that one
+		first := cfg.entries[v.matching[0]]
 		lay(v.entryLeaf[v.matching[0]], "entry")
+		if x, mentioned := first.layer["applications"]; s.list && mentioned {
+			arr, _ := x.([]any)
+			v.explicitEmpty = len(arr) == 0
+		}
 	}
 	return v
 }
@@ -1198,6 +1206,9 @@ func c20Run(t *testing.T, focusID string) {
 		var handler *SLOCfgHandlerForConfigMapEvent
 		var reconciler *NodeSLOReconciler
 		build := func(objs ...client.Object) {
+			for _, n := range nodes {
+				objs = append(objs, n.DeepCopy())
+			}
 			fakeClient = fake.NewClientBuilder().WithScheme(scheme.Scheme).WithObjects(objs...).Build()
 			handler = NewSLOCfgHandlerForConfigMapEvent(fakeClient, DefaultSLOCfg(), &record.FakeRecorder{})
 			reconciler = &NodeSLOReconciler{Client: fakeClient, sloCfgCache: handler, Scheme: scheme.Scheme, Recorder: &record.FakeRecorder{}}
@@ -1367,6 +1378,10 @@ func c20Run(t *testing.T, focusID string) {
 				default:
 					view := focus.expect(st.cfg, nodeLabels[i])
 					p, inherited, bad := c20Diff(view.exp, act)
+					if bad && view.explicitEmpty && len(act) == 0 {
+						bad = false
+						c.Class("explicit-empty-list-in-entry(read as set-to-empty, tolerated)")
+					}
 					if bad {
 						e, hasE := view.exp[p]
 						a, hasA := act[p]
